@@ -7,6 +7,7 @@ From FFS Require Import WsClient.Model WsClient.Spec WsClient.ProofsHttp WsClien
   WsClient.ProofsWsPairing WsClient.ProofsWsReconnect WsClient.ProofsWsResub WsClient.ProofsWsRouting
   WsClient.ProofsHttpPairing WsClient.ProofsWsResubExact
   WsClient.ProofsWsRoutingGen WsClient.ProofsWsRoutingGenThm WsClient.ProofsWsReferee.
+From FFS Require Import WsClient.ProofsWsOnce.
 Import ListNotations.
 
 (* 1. HTTP: with a limit configured, the number of requests outstanding at the backend never exceeds
@@ -608,3 +609,63 @@ Example C18_ws_build_fail_nonvacuous :
   | None => false
   end = true.
 Proof. vm_compute. split; reflexivity. Qed.
+
+
+(* ===================== §10 Wave 6: one response per call, none dropped; the guard of R5 removed ===================== *)
+
+(* W6-1. The four places a call's response can come from or be in - the table [w_calls], the snapshot
+      handleReconnect is working through, the receive loop's hand (RDeliver), the delivery log - are mutually
+      exclusive in every reachable state; a call in one of the first three has been handed nothing and its
+      capacity-1 channel is EMPTY; whatever lies in a channel is in the delivery log. *)
+Theorem C18_ws_single_response :
+  forall evs w, wrun evs winit = Some w ->
+    (forall i k, In (i, k) (w_calls w) ->
+        w_chan w k = None /\ (forall r, ~ In (LDeliver k r) (w_log w)) /\
+        (forall r, w_rpc w <> RDeliver k r) /\ (forall j, ~ In (j, k) (hcalls (w_hpc w)))) /\
+    (forall i k, In (i, k) (hcalls (w_hpc w)) ->
+        w_chan w k = None /\ (forall r, ~ In (LDeliver k r) (w_log w)) /\ (forall r, w_rpc w <> RDeliver k r)) /\
+    (forall k r, w_rpc w = RDeliver k r -> w_chan w k = None /\ (forall r', ~ In (LDeliver k r') (w_log w))) /\
+    (forall k r, w_chan w k = Some r -> In (LDeliver k r) (w_log w)).
+Proof. exact ws_single_response. Qed.
+Print Assumptions C18_ws_single_response.
+
+(* W6-2. deliverCallResponse never takes its default (drop) branch: the receive loop and handleReconnect both find
+      the channel empty; the response goes in, is logged, and is the FIRST one handed to that call. *)
+Theorem C18_ws_response_never_dropped :
+  forall evs w, wrun evs winit = Some w ->
+    (forall k r w', w_rpc w = RDeliver k r -> wstep w ERDeliver = Some w' ->
+        w_chan w' k = Some r /\ w_log w' = LDeliver k r :: w_log w /\ (forall r', ~ In (LDeliver k r') (w_log w))) /\
+    (forall k w', wstep w (ERcDeliver k) = Some w' ->
+        w_chan w' k = Some RespReconn /\ w_log w' = LDeliver k RespReconn :: w_log w /\
+        (forall r', ~ In (LDeliver k r') (w_log w))).
+Proof. exact ws_response_never_dropped. Qed.
+Print Assumptions C18_ws_response_never_dropped.
+
+(* W6-3. R5 (C18_ws_reply_is_delivered) WITHOUT its guard "k's channel is free": a reply frame whose id is
+      registered to call k is taken by the receive loop and its next step puts exactly that frame's id, error
+      flag and result into k's channel and the log - in every reachable state with the loop idle. *)
+Theorem C18_ws_reply_is_delivered_unguarded :
+  forall evs w, wrun evs winit = Some w ->
+    forall i k e v, w_rpc w = RIdle -> alookup i (w_calls w) = Some k ->
+      exists w1 w2,
+        wstep w (EFrame (FReply (Some i) e v)) = Some w1 /\
+        w_rpc w1 = RDeliver k (RespFrame i e v) /\
+        wstep w1 ERDeliver = Some w2 /\
+        alookup i (w_calls w2) = None /\
+        w_chan w2 k = Some (RespFrame i e v) /\ w_log w2 = LDeliver k (RespFrame i e v) :: w_log w /\
+        (forall r, ~ In (LDeliver k r) (w_log w)).
+Proof. exact ws_reply_is_delivered_unguarded. Qed.
+Print Assumptions C18_ws_reply_is_delivered_unguarded.
+
+(* non-vacuity of W6: call 0 (id 1) answered by a frame, call 1 (id 2) outstanding at a reconnect: each response
+   lands in an empty channel (reply content / reconnect error), five log entries *)
+Example C18_ws_single_response_nonvacuous :
+  match wrun once_witness winit with
+  | Some w =>
+      match w_chan w 0, w_chan w 1 with
+      | Some (RespFrame 1%N false (Some 7%N)), Some RespReconn => (length (w_log w) =? 5)%nat
+      | _, _ => false
+      end
+  | None => false
+  end = true.
+Proof. vm_compute. reflexivity. Qed.
